@@ -26,6 +26,11 @@ func init() {
 		b := hexOf(d, "bytes")
 		at := int(d["fail_at"].(float64))
 		r, fr := mkFaultReader(cfg, b, at)
+		errInjected := errInjected
+		if k, _ := d["error_kind"].(string); k != "" {
+			errInjected = c18ErrOf(k)
+			fr.err = errInjected
+		}
 		got, err, reached, pan := observeUntilFault(cfg, r, fr, len(b))
 		fmt.Printf("  cfg=%+v fail_at=%d: %d results before, pending call error=%v, failure reached=%v, panic=%v\n", cfg, at, len(got), err, reached, pan)
 		if pan != nil || (reached && (err == nil || errors.Is(err, astits.ErrNoMorePackets) || !errors.Is(err, errInjected))) {
